@@ -77,6 +77,8 @@ class Env:
                 return core_ports.PortError('scripted port error')
             if kind == 'PortTimeout':
                 return core_ports.PortTimeout('scripted port timeout')
+            if kind == 'CancelledError':       # probes only: a BaseException, outside the fault alphabet
+                return asyncio.CancelledError()
             return Exception('scripted failure')
 
         self.make_exc = make_exc
@@ -168,14 +170,14 @@ class Env:
 
         async def update_wrapper():
             origin = env.origin()
-            env.log(['pass', env.now_ms(), origin, env.outs()])
+            env.log(['pass', env.now_ms(), origin, env.outs(), env.values()])
             try:
                 await env.orig_update()
             except Exception as e:  # noqa: BLE001
                 env.log(['pass_exc', type(e).__name__])
                 raise
             finally:
-                env.log(['pass_end'])
+                env.log(['pass_end', env.values()])
 
         main.update = update_wrapper
 
@@ -212,6 +214,11 @@ class Env:
             rd = 'val' if not m['read'] else ('skip' if m['read'] == 'SkipRead' else 'err')
             d[p.get_id()] = [bool(m['hb']), rd, bool(m['attr'])]
         return d
+
+    def values(self):
+        """{port: [last value, what the driver would return, enabled]}"""
+        return {p.get_id(): [canon(p.get_last_read_value()), canon(getattr(p, 'c15_drv', None)), p.is_enabled()]
+                for p in self.core_ports.get_all()}
 
     # ---- one run
     def reset(self):
@@ -452,6 +459,55 @@ def diff_views(a, b):
     return None
 
 
+RETRY_MS = 10000      # "ports skipped for 10 s after a failed read" (properties.jsonl, anchors of C15)
+
+
+def own_port_check(run):
+    """the failing port itself (second sentence of the property), checked on the log of one run:
+      * a pass in which the port is not read, or its read raises / reports skip, leaves its last value alone;
+        a read that returns a value makes that value the last value;
+      * after a read error at time t the port is not read by passes at times <= t + 10 s and is read by the first pass
+        after that (and by every pass while it is not parked).
+    -> None or {'rule': ..., ...}"""
+    parked_at = {}
+    cur = None
+    for it in run.get('log') or []:
+        k = it[1]
+        if k == 'pass':
+            cur = {'now': it[2], 'outs': it[4], 'before': it[5], 'reads': [], 'vt': it[0]}
+        elif k == 'read' and cur is not None:
+            cur['reads'].append(it[2])
+        elif k == 'pass_exc' and cur is not None:
+            cur['exc'] = True
+        elif k == 'pass_end' and cur is not None:
+            after = it[2]
+            for p, (last, drv, enabled) in cur['before'].items():
+                if p not in after:
+                    continue
+                rd = cur['outs'].get(p, [False, 'val', False])[1]
+                was_read = p in cur['reads']
+                t = parked_at.get(p)
+                expect_read = enabled and not (t is not None and cur['now'] - t <= RETRY_MS)
+                if cur.get('exc') and not was_read:
+                    expect_read = was_read      # the pass was aborted: judged by the healthy-port oracle, not here
+                if was_read != expect_read:
+                    return {'rule': 'retry', 'port': p, 'vtime_ms': cur['vt'], 'read': was_read, 'expected_read': expect_read,
+                            'ms_since_read_error': None if t is None else cur['now'] - t}
+                if was_read:
+                    parked_at.pop(p, None)
+                    if rd == 'err':
+                        parked_at[p] = cur['now']
+                new = after[p][0]
+                if was_read and rd == 'val':
+                    if new != drv:
+                        return {'rule': 'recover', 'port': p, 'vtime_ms': cur['vt'], 'driver_value': drv, 'last_value_after': new}
+                elif new != last:
+                    return {'rule': 'last-good-value', 'port': p, 'vtime_ms': cur['vt'], 'outcome': rd if was_read else 'not read',
+                            'last_value_before': last, 'last_value_after': new}
+            cur = None
+    return None
+
+
 def pair(env, sc):
     H = healthy_ids(sc)
     fr = env.run(sc)
@@ -470,6 +526,10 @@ def pair(env, sc):
             d = ('settle', {'with_faulty_ports': ua, 'without': ub})
     if d is not None:
         res['diff'] = {'observable': d[0], 'detail': d[1]}
+    else:
+        own = own_port_check(fr) or own_port_check(rr)
+        if own is not None:
+            res['diff'] = {'observable': 'own:' + own['rule'], 'detail': own}
     return res
 
 
@@ -599,7 +659,7 @@ def probes(env):
     out['attr-getter-in-handle_value_changes(faulty last)'] = summary(sc2)
 
     # slow / hanging driver reads (timing; not part of the value/event observables)
-    async def timing(env, latency=None, hang=False):
+    async def timing(env, latency=None, hang=False, kind='TimeoutError'):
         cp, main = env.core_ports, env.main
         env.reset()
         env.rec = None
@@ -611,23 +671,19 @@ def probes(env):
         await main.update()
         f, h = ports
         env.rec = rec = []
-        if latency:
+        if latency is not None:
             f.c15_latency = latency
-            f.c15_mode['read'] = 'TimeoutError'
+            f.c15_mode['read'] = kind
         if hang:
             f.c15_hang = asyncio.get_running_loop().create_future()
 
-        async def loop():
-            while True:
-                try:
-                    await main.update()
-                except Exception:  # noqa: BLE001
-                    pass
-                await asyncio.sleep(env.settings.core.tick_interval / 1000.0)
-
-        t = asyncio.ensure_future(loop())
+        ready = main._ready
+        main._ready = True
+        t = asyncio.ensure_future(main.update_loop())       # the real polling loop
         await asyncio.sleep(60)
+        loop_ended_by_itself = t.done()
         t.cancel()
+        main._ready = ready
         reads_h = [it[0] for it in rec if it[1] == 'read' and it[2] == 'h']
         gaps = [b - a for a, b in zip(reads_h, reads_h[1:])]
         env.rec = None
@@ -638,12 +694,13 @@ def probes(env):
         await asyncio.sleep(0)
         cp._ports_by_id.clear()
         return {'healthy_reads_in_60s': len(reads_h), 'max_gap_ms_between_healthy_reads': max(gaps) if gaps else None,
-                'tick_interval_ms': env.settings.core.tick_interval}
+                'tick_interval_ms': env.settings.core.tick_interval, 'polling_loop_ended': loop_ended_by_itself}
 
     from harness.common import vloop
     out['timing:no-fault'] = vloop.run(timing(env))
     out['timing:read-raises-TimeoutError-after-5s'] = vloop.run(timing(env, latency=5.0))
     out['timing:read-never-returns'] = vloop.run(timing(env, hang=True))
+    out['timing:read-raises-CancelledError(BaseException, out of scope)'] = vloop.run(timing(env, latency=0, kind='CancelledError'))
     return out
 
 
